@@ -19,7 +19,7 @@ func init() {
 	Registry["C18"] = Spec{
 		Run: runC18, Workers: 16, GOMAXPROCS: 4,
 		QuickTimeout: 6 * time.Minute, ThoroughTimeout: 30 * time.Minute,
-		QuickFloor: 300, ThoroughFloor: 5000,
+		QuickFloor: 2000, ThoroughFloor: 40000,
 		RequiredCounters: []string{"jobs_run_once", "count_pairs_checked", "waitidle_returns_judged", "order_checked_limit1", "enqueue_during_worker_retire", "ConcWorkerLock"},
 		Rule: "each case builds one ConcurrentQueue (limit 0=unlimited,1,2,3,8; 0-3 initial jobs) and runs 1-4 producers enqueueing batches of 0-5 jobs (nil entries included) whose durations are instant, yielding or gated by the harness, a WatchState observer and 1-3 WaitIdle callers (with error channels delivering nil, an error, or closing); " +
 			"jobs stamp start/end and count themselves; every (queued,running) pair returned or watched is checked; at the final quiescence every job ran exactly once; " +
@@ -32,7 +32,7 @@ func runC18(w *mon.Worker) {
 	mon.SetMaxSleep(100 * time.Microsecond)
 	mon.SetProb(0.3, verifhook.ConcWorkerLock)
 	mon.SetProb(0.15, verifhook.BcastEnter, verifhook.BcastExit)
-	for i := 0; i < w.Share(w.Scale(3200, 100000)); i++ {
+	for i := 0; i < w.Share(w.Scale(12000, 300000)); i++ {
 		w.Case("queue", nil, concCase)
 	}
 	mon.ClearProb()
